@@ -229,7 +229,7 @@ class FuncView:
             return (set(), False)
         self._effects_busy = True
         eff = {(o.cls, o.table, o.op, o.elem_level, o.may) for o in self.ops()}
-        opaque = bool(self.unattributed_mutations())
+        opaque = bool(self.unattributed_mutations()) or self._escapes()
         for n in walk_no_nested(self.fi.node):
             if isinstance(n, ast.Call):
                 for callee in self._same_object_callees(n):
@@ -240,6 +240,25 @@ class FuncView:
         self._effects_busy = False
         self._effects = (eff, opaque)
         return self._effects
+
+    def _escapes(self) -> bool:
+        """a declared table is handed to a callee as an argument, or a method of the same object is used as a VALUE (put in a
+        table of handlers, passed to map / partial): what happens to the tables then is not visible as table operations of
+        this function"""
+        for n in walk_no_nested(self.fi.node):
+            if isinstance(n, ast.Call):
+                for a in list(n.args) + [k.value for k in n.keywords]:
+                    if isinstance(a, (ast.Attribute, ast.Name)) and isinstance(getattr(a, "ctx", None), ast.Load):
+                        c = self.tables_of(a)
+                        if c and any(not lvl for _, _, lvl in c) and not (isinstance(n.func, ast.Name) and n.func.id in ("len", "list", "set", "sorted", "tuple", "dict", "iter", "enumerate", "zip", "print", "str", "repr", "isinstance", "id", "bool", "any", "all", "sum", "min", "max", "frozenset", "reversed")):
+                            callee_known = bool(self.ctx.callees(self.fi, n))
+                            if not callee_known or not isinstance(n.func, ast.Attribute):
+                                return True
+            if isinstance(n, ast.Attribute) and isinstance(n.ctx, ast.Load) and isinstance(n.value, ast.Name) and n.value.id == "self" and self.fi.cls is not None and n.attr in getattr(self.fi.cls, "methods", {}):
+                par = self.parent.get(id(n))
+                if not (isinstance(par, ast.Call) and par.func is n):
+                    return True
+        return False
 
     def unattributed_mutations(self):
         """mutating statements on a base whose kind is unknown although it may refer to the object's state"""
